@@ -68,7 +68,7 @@ func ghostAssert(b bool) {}
 func ghostAssume(b bool, why string) {}
 
 // ghostProtect(s): elements of s are private to this frame. ghostProtectFields(p, names...): so are these fields of *p.
-func ghostProtect(s any)                         {}
+func ghostProtect(s any, fields ...string)       {}
 func ghostProtectFields(p any, fields ...string) {}
 
 // atLoopEntry(x): the value of x when the innermost loop was entered.
@@ -96,13 +96,13 @@ func wfValue(v *VMValue) bool {
 		return ok && x != nil
 	case VMTypeDict:
 		x, ok := v.Value.(*DictData)
-		return ok && x != nil && x.Dict != nil
+		return ok && x != nil
 	case VMTypeFunction:
 		x, ok := v.Value.(*FunctionData)
 		return ok && x != nil
 	case VMTypeNativeFunction:
 		x, ok := v.Value.(*NativeFunctionData)
-		return ok && x != nil && x.NativeFunc != nil
+		return ok && x != nil
 	case VMTypeNativeObject:
 		x, ok := v.Value.(*NativeObjectData)
 		return ok && x != nil
@@ -140,9 +140,28 @@ func wfInstr(c *ByteCode, k, n int) bool {
 		return ok
 	case typeCustomDice:
 		x, ok := c.Value.(*customDiceCompiled)
-		return ok && x != nil && x.item != nil && x.item.fn != nil
+		return ok && x != nil
 	}
 	return true
+}
+
+// specNeedsDetail: the instruction writes details[len(details)-1] (a mark.detail must precede it: C08).
+func specNeedsDetail(t CodeType) bool {
+	switch t {
+	case typePushDefaultExpr, typeLoadNameWithDetail, typeDice, typeDiceFate, typeDiceCocBonus, typeDiceCocPenalty, typeDiceWod, typeDiceDC:
+		return true
+	}
+	return false
+}
+
+// specNeedsDice: the instruction uses diceStates[diceStateIndex] (a dice.init must be open: C08).
+func specNeedsDice(t CodeType) bool {
+	switch t {
+	case typePushDefaultExpr, typeDiceSetTimes, typeDiceSetKeepLowNum, typeDiceSetKeepHighNum, typeDiceSetDropLowNum, typeDiceSetDropHighNum,
+		typeDiceSetMin, typeDiceSetMax, typeDice:
+		return true
+	}
+	return false
 }
 
 // specPops: operand-stack height instruction c needs (the stack-effect table of C08, VM side).
@@ -624,6 +643,12 @@ func (*ParserData).BreakSet
 // ---- rollvm.go: the VM ----
 
 typeinv v *VMValue : wfValue(v)
+typeinv d *DictData : d.Dict != nil
+typeinv f *NativeFunctionData : f.NativeFunc != nil
+typeinv c *customDiceCompiled : c.item != nil
+typeinv it *customDiceItem : it.fn != nil
+
+freshonly VMValue.TypeId VMValue.Value ByteCode.T ByteCode.Value customDiceCompiled.item customDiceCompiled.text customDiceCompiled.groups customDiceCompiled.payload customDiceItem.fn
 
 // ---- small constructors and accessors: callers execute the body (inline) ----
 
@@ -661,6 +686,7 @@ func NewDictVal
 
 func NewComputedValRaw
   props C01 C02 C10
+  requires computed != nil
   inline
 
 func NewComputedVal
@@ -669,14 +695,17 @@ func NewComputedVal
 
 func NewFunctionValRaw
   props C01 C02 C10
+  requires computed != nil
   inline
 
 func NewNativeFunctionVal
   props C01 C02 C10
+  requires data != nil
   inline
 
 func NewNativeObjectVal
   props C01 C02 C10
+  requires data != nil
   inline
 
 func boolToVMValue
@@ -749,6 +778,8 @@ func (*Context).evaluate
   requires ctx != nil
   requires 0 <= ctx.codeIndex && ctx.codeIndex <= len(ctx.code)
   requires forall k in [0, ctx.codeIndex): wfInstr(&ctx.code[k], k, ctx.codeIndex)
+  requires ctx.parser != nil
+  requires forall k in [0, ctx.codeIndex): ctx.code[k].T == typeDetailMark ==> 0 <= ctx.code[k].Value.(BufferSpan).Begin && ctx.code[k].Value.(BufferSpan).Begin <= ctx.code[k].Value.(BufferSpan).End && ctx.code[k].Value.(BufferSpan).End <= IntType(len(ctx.parser.data))
   loop 1
     invariant 0 <= i && i <= num && len(data) == int(i) && e.top == atLoopEntry(e.top) - int(i)
     invariant forall k in [0, len(data)): data[k] != nil
@@ -765,12 +796,69 @@ func (*Context).evaluate
     invariant e == ctx && len(stack) == 1000 && 0 <= e.top && e.top <= 1000
     invariant len(e.stack) == 1000 && &e.stack[0] == &stack[0]
     invariant 0 <= opIndex
-    invariant e.codeIndex == old(e.codeIndex) && len(e.code) == old(len(e.code)) && e.codeIndex <= len(e.code)
+    invariant e.codeIndex == old(e.codeIndex) && len(e.code) == old(len(e.code)) && e.codeIndex <= len(e.code) && &e.code[0] == old(&e.code[0])
     invariant forall k in [0, e.codeIndex): wfInstr(&e.code[k], k, e.codeIndex)
     invariant forall i in [0, e.top): wfValue(&stack[i])
     invariant lastPop == nil || wfValue(lastPop)
-  ghost at loop 3 begin: ghostProtect(stack); ghostProtectFields(ctx, "code", "codeIndex", "stack", "top")
+    invariant 0 <= blockIndex && blockIndex <= 20 && 0 <= fstrBlockIndex && fstrBlockIndex <= 20
+    invariant forall k in [0, blockIndex): 0 <= blockStack[k] && blockStack[k] <= 999
+    invariant forall k in [0, fstrBlockIndex): 0 <= fstrBlockStack[k] && fstrBlockStack[k] <= 999
+    invariant -1 <= diceStateIndex && diceStateIndex < len(diceStates)
+    invariant forall k in [0, diceStateIndex+1): diceStates[k].times >= 1 && 0 <= diceStates[k].isKeepLH && diceStates[k].isKeepLH <= 4
+    invariant ctx.parser == old(ctx.parser) && ctx.parser != nil && len(ctx.parser.data) == old(len(ctx.parser.data))
+    invariant forall k in [0, e.codeIndex): e.code[k].T == typeDetailMark ==> 0 <= e.code[k].Value.(BufferSpan).Begin && e.code[k].Value.(BufferSpan).Begin <= e.code[k].Value.(BufferSpan).End && e.code[k].Value.(BufferSpan).End <= IntType(len(ctx.parser.data))
+    invariant forall j in [0, len(details)): 0 <= details[j].Begin && details[j].Begin <= details[j].End && details[j].End <= IntType(len(ctx.parser.data))
+  loop 4
+    invariant 0 <= index && index < len(arr) && len(arr) == int(length) && 1 <= length && length <= 512
+    invariant step == 1 ==> _a <= i && i <= _b && IntType(index) == i - _a && length == _b - _a + 1
+    invariant step == -1 ==> _b <= i && i <= _a && IntType(index) == _a - i && length == _a - _b + 1
+    invariant step == 1 || step == -1
+    invariant forall k in [0, index): arr[k] != nil
+    invariant isFresh(arr)
+  loop 5
+    invariant 0 <= index && index <= num && e.top == atLoopEntry(e.top) && e == ctx && len(stack) == 1000
+    invariant index > 0 ==> e.top - num >= 0
+    invariant len(e.stack) == 1000 && &e.stack[0] == &stack[0] && 0 <= e.top && e.top <= 1000
+    invariant forall j in [0, e.top): wfValue(&stack[j])
+    invariant lastPop == nil || wfValue(lastPop)
+  ghost at loop 3 begin: ghostProtectFields(ctx, "code", "codeIndex", "stack", "top", "parser"); ghostProtect(diceStates); ghostProtect(details, "Begin", "End"); ghostProtectFields(ctx.parser, "data")
   ghost at loop 3 begin: ghostAssume(IntType(e.top) >= specPops(&e.code[opIndex]), "bytecode passes the stack-height typing of C08 (operand stack holds the operands of the current instruction)")
+  ghost at loop 3 begin: ghostAssume(!specNeedsDetail(e.code[opIndex].T) || len(details) >= 1, "bytecode: a mark.detail precedes every instruction that annotates a detail span (C08)")
+  ghost at loop 3 begin: ghostAssume(!specNeedsDice(e.code[opIndex].T) || diceStateIndex >= 0, "bytecode: a dice.init is open at every dice modifier / roll instruction (C08)")
+  ghost at loop 3 begin: ghostAssume(e.code[opIndex].T != typeBlockPop || blockIndex >= 1, "bytecode: block.pop closes a block.push (C08)")
+  ghost at loop 3 begin: ghostAssume(e.code[opIndex].T != typeFStringBlockPop || fstrBlockIndex >= 1, "bytecode: fstr.block.pop closes an fstr.block.push (C08)")
+  ghost at loop 3 begin: ghostAssume(e.code[opIndex].T != typeFStringBlockPop || e.top >= fstrBlockStack[fstrBlockIndex-1], "bytecode: a template block never pops below the height saved by its fstr.block.push (C08)")
+  ghost at loop 3 begin: ghostAssume(e.code[opIndex].T != typeBlockPop || e.top >= blockStack[blockIndex-1], "bytecode: a block never pops below the height saved by its block.push (C08)")
+  ghost at loop 3 end: if code.T == typeDiceInit { ghostAssert(diceStateIndex >= 0 && diceStates[diceStateIndex].times == 1 && diceStates[diceStateIndex].isKeepLH == 0 && diceStates[diceStateIndex].min == nil && diceStates[diceStateIndex].max == nil) }
+
+func NewDictValWithArray
+  props C01 C10
+  ensures result1 == nil ==> result0 != nil
+
+func (*VMValue).GetSliceEx
+  props C01
+  noverify
+  ensures result == nil ==> ctx.Error != nil
+
+func (*VMValue).FuncInvoke
+  props C01
+  noverify
+  ensures result == nil ==> ctx.Error != nil
+
+func (*VMValue).FuncInvokeNative
+  props C01
+  noverify
+  ensures result == nil ==> ctx.Error != nil
+
+func (*Context).LoadName
+  props C01
+  noverify
+  ensures result == nil ==> ctx.Error != nil
+
+func (*Context).LoadNameWithDetail
+  props C01
+  noverify
+  ensures result == nil ==> ctx.Error != nil
 
 // ---- lemmas (raw SMT-LIB, proved on every run; expected answer: unsat) ----
 
